@@ -146,9 +146,10 @@ REQUIRED_LABELS = \
      if not (f[1] and ((a == "recombination_pec" and _open(F_RPEC)) or (a == "beam_cx_pec" and _open(F_BCXNULL))))] + \
     ["matrix:null:" + a for a in _RATE_ACC if not ((a == "recombination_pec" and _open(F_RPEC)) or (a == "beam_cx_pec" and _open(F_BCXNULL)))] + \
     ([] if _open(F_EDGE) else
-     ["matrix:edge:log10-mismatch:%s:axis%d" % (a, k) for a in TAB_ACC for k in range(3 if a == "thermal_cx_pec" else 2)] +
-     ["matrix:edge:log10-mismatch:%s:axis%d" % (a, k) for a in BEAM_ACC for k in range(3)] + ["matrix:edge:log10-mismatch:beam_cx_pec:axis0"] +
-     ["tab:edge:log10-mismatch", "beam:edge:log10-mismatch", "beamcx:edge:log10-mismatch"]) + \
+     ["matrix:edge:%s:%s:axis%d" % (w, a, k) for w in ("np", "libm") for a in TAB_ACC for k in range(3 if a == "thermal_cx_pec" else 2)] +
+     ["matrix:edge:%s:%s:axis%d" % (w, a, k) for w in ("np", "libm") for a in BEAM_ACC for k in range(3)] +
+     ["matrix:edge:np:beam_cx_pec:axis0", "matrix:edge:libm:beam_cx_pec:axis0"] +
+     ["tab:edge:np", "beam:edge:np", "beamcx:edge:np", "tab:edge:libm"]) + \
     ["matrix:single-axis:%s:%s" % (a, x) for a in BEAM_ACC for x in "en"] + ["matrix:single-axis:beam_cx_pec:" + x for x, _ in BCX_AXES] + \
     ["matrix:sib:other-transition-same-file:" + a for a in sorted(PHOTON)] + ["matrix:sib:other-transition-same-file", "wl:sib:other-transition-same-file"] + \
     ["missing:sib:other-transition-same-file:" + a for a in sorted(PHOTON)] + \
@@ -212,27 +213,37 @@ def _alt(x, i):
     return float(x)
 
 
-def _log10_differs(x):
-    return float(np.log10(np.array([x, x, x, x, x]))[2]) != math.log10(x)
+def _np_log10(x):
+    return float(np.log10(np.array([x, x, x, x, x]))[2])
 
 
 def _harmful_edge(x, side, rev=False):
-    """Nearest double to x (searching towards the inside of the grid) for which numpy's log10 and libm's log10 differ such
-    that a knot computed with one of them lies strictly inside the value computed with the other: evaluating exactly at
-    this edge knot then falls outside [knot_min, knot_max] unless knots and arguments use the same function."""
-    n = 1500
-    cand = x + np.arange(n) * np.spacing(x) * (1.0 if side == 0 else -1.0)
-    a = np.log10(cand)
-    b = np.array([math.log10(v) for v in cand])
-    lower = (b < a) if (side == 0) != rev else (b > a)
-    bad = np.nonzero(lower)[0]
-    return float(cand[bad[0]]) if len(bad) else float(x)
+    """A double near x for which numpy's log10 and libm's log10 differ such that a knot computed with numpy (rev: with libm)
+    lies strictly inside the argument computed with the other function: evaluating exactly at this edge knot then falls
+    outside [knot_min, knot_max] unless knots and arguments use the same function.  The sign of the disagreement depends on
+    the mantissa region, so after the 1500 neighbouring doubles (towards the inside of the grid) the search continues
+    OUTWARDS over a factor of up to 1.5 (grid spacing can only grow, by < 0.18 decade)."""
+    sgn = 1.0 if side == 0 else -1.0
+    for cand in (x + np.arange(1500) * np.spacing(x) * sgn, x * 1.5 ** (-sgn * np.arange(1, 3001) / 3000.0)):
+        a = np.log10(cand)
+        b = np.array([math.log10(v) for v in cand])
+        lower = (b < a) if (side == 0) != rev else (b > a)
+        bad = np.nonzero(lower)[0]
+        if len(bad):
+            return float(cand[bad[0]])
+    return float(x)
 
 
 def _edge_labels(ctx, acc, axes, logaxes):
+    """np: knots built with numpy.log10 (arguments through libm) would put this edge knot out of range; libm: the reverse."""
     for k, a in enumerate(axes):
-        if logaxes[k] and len(a) >= 2 and (_log10_differs(a[0]) or _log10_differs(a[-1])):
-            ctx.label("edge:log10-mismatch", "edge:log10-mismatch:%s:axis%d" % (acc, k))
+        if logaxes[k] and len(a) >= 2:
+            lo = (math.log10(a[0]), _np_log10(a[0]))
+            hi = (math.log10(a[-1]), _np_log10(a[-1]))
+            if lo[0] < lo[1] or hi[0] > hi[1]:
+                ctx.label("edge:np", "edge:np:%s:axis%d" % (acc, k))
+            if lo[0] > lo[1] or hi[0] < hi[1]:
+                ctx.label("edge:libm", "edge:libm:%s:axis%d" % (acc, k))
 
 
 def _repeat(ctx, what, rate, rate2, pts, first):
